@@ -590,7 +590,7 @@ func censusCoq(sites []site) string {
 	b.WriteString("(* GENERATED by `h_det -mode census` (harness/cmd/det/census.go) from the Go tree in $VERIF_REPO.\n")
 	b.WriteString("   Do not edit: ./check C20 rewrites this file before `make` whenever the tree changes.\n")
 	b.WriteString("   One entry per `range` over a map-typed expression (non-test files, build tag verif). *)\n")
-	b.WriteString("From Coq Require Import String List.\nFrom Atlas Require Import Det.Census.\nImport ListNotations.\nOpen Scope string_scope.\n\n")
+	b.WriteString("From Coq Require Import String List.\nFrom Atlas Require Import Det.Census.\nImport ListNotations.\nLocal Open Scope string_scope.\n\n")
 	b.WriteString("Definition map_ranges : list map_range := [\n")
 	for i, s := range sites {
 		sep := ";"
